@@ -317,10 +317,19 @@ parse_next_record_header:
                 /* If server does not accept early_data then ignore decrypt errors
                    to up-to configured ssl->tls13SessionMaxEarlyData bytes.
                    (TLS1.3 spec chapt. 4.2.10) */
-                psTraceInt("Ignored %d bytes of possible early_data\n",
-                        ssl->rec.len - AEAD_TAG_LEN(ssl) - 1);
-                ssl->tls13ReceivedEarlyDataLen +=
-                    (ssl->rec.len - AEAD_TAG_LEN(ssl)- 1);
+                if (ssl->rec.len > AEAD_TAG_LEN(ssl) + 1)
+                {
+                    psTraceInt("Ignored %d bytes of possible early_data\n",
+                            ssl->rec.len - AEAD_TAG_LEN(ssl) - 1);
+                    ssl->tls13ReceivedEarlyDataLen +=
+                        (ssl->rec.len - AEAD_TAG_LEN(ssl)- 1);
+                }
+                else
+                {
+                    /* Too short to be a protected record at all: it still
+                       uses up the budget (and never gives any back). */
+                    ssl->tls13ReceivedEarlyDataLen += ssl->rec.len;
+                }
                 ssl->tls13EarlyDataStatus = MATRIXSSL_EARLY_DATA_REJECTED;
                 if (ssl->tls13ReceivedEarlyDataLen <= ssl->tls13SessionMaxEarlyData)
                 {
